@@ -128,6 +128,41 @@ func genC04(c *Ctx) {
 				return pkEnc(crypto.RemoveBLSPublicKeys(all, pks[cut:]))
 			}))
 		}
+		// operation results fed back as inputs: removal one key at a time (each result is the next aggKey), then
+		// re-aggregation of the reduced key with the removed ones, and a decode round trip of the reduced key
+		if cut > 0 && cut < size {
+			c.Case("remove-chained", "agg.pk "+scalarsLine(ks[:cut]), guard(func() string {
+				cur, err := crypto.AggregateBLSPublicKeys(ppks)
+				if err != nil {
+					return "err"
+				}
+				for _, pk := range pks[cut:] {
+					cur, err = crypto.RemoveBLSPublicKeys(cur, []crypto.PublicKey{pk})
+					if err != nil {
+						return "err " + errClass(err)
+					}
+				}
+				dec, derr := crypto.DecodePublicKey(crypto.BLSBLS12381, cur.Encode())
+				if derr != nil {
+					return "ok " + hx(cur.Encode()) + " result-does-not-decode"
+				}
+				if !dec.Equals(cur) || !cur.Equals(dec) {
+					return "ok " + hx(cur.Encode()) + " decoded-not-equal"
+				}
+				return "ok " + hx(cur.Encode())
+			}))
+			c.Case("agg-of-removed", "agg.pk "+scalarsLine(ks), guard(func() string {
+				all, err := crypto.AggregateBLSPublicKeys(ppks)
+				if err != nil {
+					return "err"
+				}
+				red, err := crypto.RemoveBLSPublicKeys(all, pks[cut:])
+				if err != nil {
+					return "err " + errClass(err)
+				}
+				return pkEnc(crypto.AggregateBLSPublicKeys(append([]crypto.PublicKey{red}, pks[cut:]...)))
+			}))
+		}
 		// signatures: aggregate of the individual signatures = signature of the aggregated key = (sum k) * H
 		msg := c.bytes(c.intn(100))
 		hp := hashPoint(msg, h)
@@ -359,7 +394,7 @@ func genC17(c *Ctx) {
 		f := c.randScalar()
 		emit("scaled", k1, pk1, askBytes("e1 mul 0x"+f.Text(16)+" "+hx(p1)), k2, pk2, askBytes("e1 mul 0x"+f.Text(16)+" "+hx(p2)))
 		// proofs outside G1
-		t := askBytes(fmt.Sprintf("e1 torsion %d", it%3))
+		t := askBytes(fmt.Sprintf("e1 torsion %d", []int{0, 1, 2, 100, 101, 102}[it%6]))
 		emit("p1-plus-torsion", k1, pk1, askBytes("e1 add "+hx(p1)+" "+hx(t)), k2, pk2, p2)
 		emit("p2-plus-torsion", k1, pk1, p1, k2, pk2, askBytes("e1 add "+hx(p2)+" "+hx(t)))
 		emit("both-plus-torsion", k1, pk1, askBytes("e1 add "+hx(p1)+" "+hx(t)), k2, pk2, askBytes("e1 add "+hx(p2)+" "+hx(t)))
